@@ -144,7 +144,10 @@ class PersistentVector(
         return self._inner[item]
 
     def __hash__(self):
-        return hash(self._inner)
+        # Vectors are equal to any other sequential collection with the same elements
+        # (lists, seqs, queues), which hash as tuples of their elements. A pvector
+        # hashes differently, which would break the hash contract between them.
+        return hash(tuple(self._inner))
 
     def __iter__(self):
         yield from self._inner
